@@ -952,6 +952,53 @@ def rule_devderiv(ctx):
     return res.finish(4)
 
 
+def rule_coefslice(ctx):
+    """The parameter vector of the GLM holds the intercept first and the coefficients after it.  Cost and gradient describe one
+    objective only if they cut it the same way: every slice of the parameter vector in `TweedieProblem::cost` and in
+    `TweedieProblem::gradient` (the part that enters the linear predictor, the part that is penalised, the part of the
+    gradient the penalty is added to) has the same range.  `p.slice(s![..n_features])` in one and `p.slice(s![offset..])` in
+    the other penalises the intercept in the gradient and the last coefficient not at all."""
+    res = RuleResult("R-C12-coefslice", "TweedieProblem::cost and ::gradient cut the parameter vector (and the gradient buffer) with one and the same range")
+    F = ctx.facts()
+    fns = [f for f in F.all_fns() if f["d"]["krate"] == "linfa_linear" and f["d"]["name"] in ("cost", "gradient") and "TweedieProblem" in (f["d"].get("self_adt") or f["d"].get("self_ty") or fn_key(f))]
+    if len(fns) < 2:
+        res.missing_anchor("TweedieProblem::cost and TweedieProblem::gradient (found %d)" % len(fns))
+        return res.finish(2)
+    ranges = {}
+    for fn in fns:
+        c = fn["crate"]
+        r = Render(c)
+        key = fn_key(fn)
+        res.instance(key)
+        got = set()
+        for y in walk(fn["body"]):
+            if y.get("k") == "MethodCall" and y["name"] in ("slice", "slice_mut", "slice_move") and y["args"]:
+                # the s![..] macro: the range expressions inside it
+                for z in walk(y["args"][0]):
+                    if z.get("k") == "Struct" and "Range" in ((c.dfn(z.get("def")) or {}).get("path") or ""):
+                        got.add(re.sub(r"\s+", "", r.e(z)))
+                    elif z.get("k") == "Call" and "Range" in ((c.dfn(strip(z["f"]).get("def")) or {}).get("path") or ""):
+                        got.add(re.sub(r"\s+", "", r.e(z)))
+        ranges[key] = (fn, got)
+    allr = set()
+    for fn, got in ranges.values():
+        allr |= got
+    if not allr:
+        res.undecided("coefslice : ranges", "no range of a slice of the parameter vector was read (fail closed)", fn_loc(fns[0]))
+        return res.finish(2)
+    if len(allr) == 1:
+        for _ in ranges:
+            res.ok()
+    else:
+        for key, (fn, got) in sorted(ranges.items()):
+            if got:
+                res.ok()
+        odd = sorted(allr)
+        fn = next(fn for fn, got in ranges.values() if len(got) > 1 or got != next(iter(ranges.values()))[1])
+        res.violate("%s : parameter-vector-cut-differently" % fn_key(fn), "cost and gradient slice the parameter vector with different ranges (%s): the part that is penalised (or that enters the linear predictor) in one is not the part in the other, so the gradient is not the gradient of the cost" % ", ".join(odd)[:160], fn_loc(fn))
+    return res.finish(2)
+
+
 def rules(tier):
     from . import carry, c04
     from . import extrema
@@ -959,7 +1006,7 @@ def rules(tier):
     from . import support, initlayout, shortcut, dispatchimpl
     from . import sizeroute
     return [sizeroute.make_rule("R-C12-sizeroute", lambda f: f["d"]["krate"] == "linfa_logistic" or (f["d"]["krate"] == "linfa_linear" and "glm" in fn_file(f)), "logistic regression and the GLM"),
-            rule_tolgrad, rule_shift, rule_zerobranch, rule_devderiv, support.make_rule("R-C12-support", "TweedieDistribution::in_range admits no non-finite target (the predicate is evaluated at +inf, -inf and NaN)",
+            rule_tolgrad, rule_shift, rule_zerobranch, rule_devderiv, rule_coefslice, support.make_rule("R-C12-support", "TweedieDistribution::in_range admits no non-finite target (the predicate is evaluated at +inf, -inf and NaN)",
                               lambda f: f["d"]["krate"] == "linfa_linear" and f["d"]["name"] == "in_range" and (f["d"].get("self_adt") or "").endswith("TweedieDistribution"),
                               2, "TweedieDistribution::in_range"),
             initlayout.make_rule("R-C12-initlayout", "linfa_logistic", "setup_init_params", "ArgminParam", 3),
